@@ -24,7 +24,7 @@ impl Property for C10 {
     }
 
     fn rule(&self) -> &'static str {
-        "case = (initial content, appended content, writer cut positions, per-event script of landings/EINTR/short reads, reader buffer capacity, read granularity, --head, iterator or whole FollowFileExecutor [SELECT input; for a quarter an aggregate whose refreshed tables must be the tables of growing prefixes: GROUP BY with COUNT, or STRING_AGG which shows arrival order]); generated swarm-style from mix(VERIF_SEED,'C10',index). Non-trivial iff >=1 append boundary fell strictly inside a line AND >=1 poll returned EOF with a partial line buffered; distinct by the hash of the schedule as experienced: (event kind, bytes served, bytes landed before it, fault) per seam event."
+        "case = (initial content, appended content, writer cut positions, per-event script of landings/EINTR/short reads, reader buffer capacity, read granularity, --head, a followed file that has been unlinked (link count 0) and is still written, iterator or whole FollowFileExecutor [SELECT input; for a quarter an aggregate whose refreshed tables must be the tables of growing prefixes: GROUP BY with COUNT, or STRING_AGG which shows arrival order]); generated swarm-style from mix(VERIF_SEED,'C10',index). Non-trivial iff >=1 append boundary fell strictly inside a line AND >=1 poll returned EOF with a partial line buffered; distinct by the hash of the schedule as experienced: (event kind, bytes served, bytes landed before it, fault) per seam event."
     }
 
     fn assumptions(&self) -> Vec<String> {
@@ -89,6 +89,8 @@ impl Property for C10 {
             "mode": if exec_agg { "exec_agg" } else if exec { "exec" } else { "iter" },
             // aggregate runs: half of them with an aggregate whose value shows the ORDER in which the lines arrived
             "agg_in_order": rng.chance(1, 2),
+            // the followed file has been removed from its directory (rm, a rename over it) and is still being written
+            "unlinked": rng.chance(1, 10),
             "head": head,
             "cap": cap,
             "initial": enc(&initial),
@@ -118,6 +120,7 @@ impl Property for C10 {
             set_field(case, "mode", json!("iter"), &mut out);
         }
         bool_field(case, "head", true, &mut out);
+        bool_field(case, "unlinked", false, &mut out);
         num_field(case, "cap", 8192, &mut out);
         num_field(case, "idle", 1, &mut out);
         num_field(case, "poll_ms", 0, &mut out);
@@ -152,6 +155,8 @@ impl Property for C10 {
             "SELECT input FROM raw"
         };
         let mut spec = WorldSpec::new(RAW_DEFS, stmt, mode);
+        spec.unlinked_inputs = jbool(case, "unlinked");
+        out.probe("followed_file_unlinked", spec.unlinked_inputs as u64);
         spec.files.push((FOLLOW_PATH.to_owned(), initial.clone()));
         spec.appends = chunks.clone();
         spec.steps = steps_from_json(case, "steps");
